@@ -4,8 +4,10 @@ import (
 	"bytes"
 	"fmt"
 	"io"
+	"os"
 	"runtime"
 	"runtime/debug"
+	"syscall"
 	"time"
 
 	"gitlab.com/gomidi/midi/v2/smf"
@@ -279,14 +281,37 @@ func guarded(budget time.Duration, measureAlloc bool, f func()) (res callResult)
 		}()
 		f()
 	}()
-	select {
-	case r := <-done:
-		if measureAlloc {
-			runtime.ReadMemStats(&m1)
-			r.alloc = m1.TotalAlloc - m0.TotalAlloc
+	// The budget is processor time of this process, not wall-clock time: on a loaded machine
+	// a legitimate call has been seen to take more than a minute of wall clock (and the
+	// verdict must be the same when the run is executed again), whereas a runaway loop burns
+	// its budget at full speed. Wall-clock time is only a last backstop, and running into it
+	// is trouble of the infrastructure, never a violation.
+	cpu0, wall0 := time.Duration(-1), time.Now() // processor time is first read at the first tick
+	tick := time.NewTicker(50 * time.Millisecond)
+	defer tick.Stop()
+wait:
+	for {
+		select {
+		case r := <-done:
+			if measureAlloc {
+				runtime.ReadMemStats(&m1)
+				r.alloc = m1.TotalAlloc - m0.TotalAlloc
+			}
+			return r
+		case <-tick.C:
+			if cpu0 < 0 {
+				cpu0 = processCPU()
+			}
+			if processCPU()-cpu0 >= budget {
+				break wait
+			}
+			if time.Since(wall0) >= 40*budget {
+				fmt.Fprintf(os.Stderr, "verif: infrastructure trouble: a library call used %v of processor time in %v of wall-clock time and has not returned\n", processCPU()-cpu0, time.Since(wall0))
+				os.Exit(3)
+			}
 		}
-		return r
-	case <-time.After(budget):
+	}
+	{
 		// The call is abandoned (a goroutine cannot be killed). What it has requested from
 		// the allocator so far is already accounted: a call that is slow because it is
 		// clearing gigabytes is reported as an allocation violation, not as a hang.
@@ -300,6 +325,15 @@ func guarded(budget time.Duration, measureAlloc bool, f func()) (res callResult)
 	}
 }
 
+// processCPU is the processor time (user + system) this process has used so far.
+func processCPU() time.Duration {
+	var ru syscall.Rusage
+	if err := syscall.Getrusage(syscall.RUSAGE_SELF, &ru); err != nil {
+		return 0
+	}
+	return time.Duration(ru.Utime.Nano() + ru.Stime.Nano())
+}
+
 // abandoned is set when a library call had to be left running; the worker stops exploring
 // after recording the violation (the stray goroutine may hold gigabytes).
 var abandoned bool
@@ -307,9 +341,9 @@ var abandoned bool
 // Abandoned reports whether a call of this process was abandoned.
 func Abandoned() bool { return abandoned }
 
-// libBudget is a backstop only: under heavy machine load a legitimate call has been seen to
-// exceed 6 s of wall clock once; a real runaway loop is reported after this budget.
-const libBudget = 60 * time.Second
+// libBudget is processor time (see guarded): legitimate calls stay below 2 s; a real runaway
+// loop is reported after this budget.
+const libBudget = 20 * time.Second
 
 // stepLimitReader fails a read loop that never ends (reader-driven non-termination).
 type stepLimitReader struct {
